@@ -267,6 +267,7 @@ type semanticToken struct {
 
 func tokenizeForSemantics(content string) []semanticToken {
 	lexer := parser.NewLexer(content)
+	columns := &utf16Columns{text: content}
 	var tokens []semanticToken
 
 	inDirective := false
@@ -314,14 +315,14 @@ func tokenizeForSemantics(content string) []semanticToken {
 
 		// Handle comments with tags - extract tag tokens
 		if tok.Type == parser.TokenComment {
-			tagTokens := extractTagTokensFromComment(tok)
+			tagTokens := extractTagTokensFromComment(tok, columns)
 			if len(tagTokens) > 0 {
 				tokens = append(tokens, tagTokens...)
 				continue
 			}
 		}
 
-		col, length := lexemeSpan(content, tok)
+		start, length := lexemeSpan(content, tok)
 		if length == 0 {
 			// nothing of the token is written on the line (a text token of blanks only)
 			continue
@@ -329,7 +330,7 @@ func tokenizeForSemantics(content string) []semanticToken {
 
 		tokens = append(tokens, semanticToken{
 			line:      uint32(tok.Pos.Line - 1),
-			col:       col,
+			col:       columns.at(start),
 			length:    length,
 			tokenType: semType,
 			modifiers: modifiers,
@@ -339,13 +340,12 @@ func tokenizeForSemantics(content string) []semanticToken {
 	return tokens
 }
 
-// lexemeSpan returns the column where the characters of tok start on its line and the
+// lexemeSpan returns the byte offset where the characters of tok start in content and the
 // number of UTF-16 code units they occupy.
-func lexemeSpan(content string, tok parser.Token) (col, length uint32) {
-	col = uint32(tok.Pos.Column - 1)
+func lexemeSpan(content string, tok parser.Token) (start int, length uint32) {
 	if tok.Type == parser.TokenComment {
 		// the value starts after the semicolon
-		return col, uint32(lsputil.UTF16Len(tok.Value) + 1)
+		return tok.Pos.Offset, uint32(lsputil.UTF16Len(tok.Value) + 1)
 	}
 
 	// The value is not always what is written in the document: the value of a code has no
@@ -353,12 +353,40 @@ func lexemeSpan(content string, tok parser.Token) (col, length uint32) {
 	// scanned with the blanks around it while its value is trimmed. The token covers the
 	// characters between its ends without the white space around them.
 	source := content[tok.Pos.Offset:tok.End.Offset]
-	lead := leadingSpace(source)
-	col += uint32(utf8.RuneCountInString(source[:lead]))
-	return col, uint32(lsputil.UTF16Len(strings.TrimSpace(source)))
+	start = tok.Pos.Offset + leadingSpace(source)
+	return start, uint32(lsputil.UTF16Len(strings.TrimSpace(source)))
 }
 
-func extractTagTokensFromComment(tok parser.Token) []semanticToken {
+// utf16Columns tells in which UTF-16 column (the character of an LSP position) a byte
+// offset of a text lies. The lexer counts columns in runes, which is one less per
+// character outside the Basic Multilingual Plane. Offsets are asked for in increasing
+// order, so the text is decoded only once.
+type utf16Columns struct {
+	text string
+	off  int    // the text before off has been counted
+	col  uint32 // UTF-16 code units between the start of the line and off
+}
+
+func (c *utf16Columns) at(off int) uint32 {
+	if off < c.off {
+		c.off, c.col = 0, 0
+	}
+	for c.off < off && c.off < len(c.text) {
+		r, size := utf8.DecodeRuneInString(c.text[c.off:])
+		switch {
+		case r == '\n':
+			c.col = 0
+		case r >= 0x10000:
+			c.col += 2
+		default:
+			c.col++
+		}
+		c.off += size
+	}
+	return c.col
+}
+
+func extractTagTokensFromComment(tok parser.Token, columns *utf16Columns) []semanticToken {
 	commentText := tok.Value
 	if !strings.Contains(commentText, ":") {
 		return nil
@@ -366,16 +394,8 @@ func extractTagTokensFromComment(tok parser.Token) []semanticToken {
 
 	var tokens []semanticToken
 	baseLine := uint32(tok.Pos.Line - 1)
-	baseCol := uint32(tok.Pos.Column - 1)
-
-	// Positions inside the comment are found in bytes and reported in UTF-16 code units:
-	// units is the UTF-16 length of commentText[:counted], counted only moves forward.
-	units, counted := 0, 0
-	utf16Offset := func(byteOffset int) uint32 {
-		units += lsputil.UTF16Len(commentText[counted:byteOffset])
-		counted = byteOffset
-		return uint32(units)
-	}
+	// the comment text starts after the semicolon
+	textOffset := tok.Pos.Offset + 1
 
 	// Tags are separated by commas. partStart is where the current part begins in the
 	// comment text, so that every tag is placed inside its own part.
@@ -400,10 +420,9 @@ func extractTagTokensFromComment(tok parser.Token) []semanticToken {
 		// Tag name with colon: "name:"
 		tagNameEnd := tagStart + len(name) + 1
 
-		// +1 to baseCol accounts for the semicolon that starts the comment
 		tokens = append(tokens, semanticToken{
 			line:      baseLine,
-			col:       baseCol + 1 + utf16Offset(tagStart),
+			col:       columns.at(textOffset + tagStart),
 			length:    uint32(lsputil.UTF16Len(name) + 1),
 			tokenType: TokenTypeTag,
 			modifiers: 0,
@@ -416,7 +435,7 @@ func extractTagTokensFromComment(tok parser.Token) []semanticToken {
 			valueStart := tagNameEnd + leadingSpace(rest)
 			tokens = append(tokens, semanticToken{
 				line:      baseLine,
-				col:       baseCol + 1 + utf16Offset(valueStart),
+				col:       columns.at(textOffset + valueStart),
 				length:    uint32(lsputil.UTF16Len(value)),
 				tokenType: TokenTypeTagValue,
 				modifiers: 0,
